@@ -184,6 +184,13 @@ PKG_SOURCES = {
 }
 
 
+def _limit_memory():
+    # a CBMC run that needs more than this is a tool limit (UNDECIDED), not something to take the machine down with
+    import resource
+    gb = int(os.environ.get('VERIF_MEM_GB', '24'))
+    resource.setrlimit(resource.RLIMIT_AS, (gb << 30, gb << 30))
+
+
 def tree_hash(scratch, package):
     """Content hash of everything that can influence a verdict for `package`: the sources of the package and of the
     workspace crates it depends on (scratch copy of the working tree, overlay included), the manifests, the harness
@@ -281,11 +288,23 @@ def _run_harnesses_uncached(scratch, package, harnesses, jobs=8, timeout=3600, e
     if extra_args:
         cmd += extra_args
     t0 = time.time()
+    import signal
+    proc = subprocess.Popen(cmd, cwd=scratch.repo, env=env, stdout=subprocess.PIPE, stderr=subprocess.PIPE, text=True,
+                            preexec_fn=_limit_memory, start_new_session=True)
     try:
-        p = subprocess.run(cmd, cwd=scratch.repo, env=env, capture_output=True, text=True, timeout=timeout)
-    except subprocess.TimeoutExpired as e:
-        subprocess.run(['pkill', '-x', 'cbmc'])
+        so, se = proc.communicate(timeout=timeout)
+    except subprocess.TimeoutExpired:
+        try:
+            os.killpg(proc.pid, signal.SIGKILL)  # the whole group (cargo-kani, kani-driver, every cbmc), nothing else
+        except Exception:
+            pass
+        proc.communicate()
         raise ToolLimit('cargo kani timed out after %ds: %s' % (timeout, ' '.join(cmd)))
+
+    class _P:
+        pass
+    p = _P()
+    p.stdout, p.stderr, p.returncode = so, se, proc.returncode
     out = p.stdout + '\n' + p.stderr
     wall = time.time() - t0
     meta = {'cmd': ' '.join(cmd), 'wall_s': wall, 'exit': p.returncode, 'tail': out[-6000:]}
@@ -309,7 +328,6 @@ def concrete_playback(scratch, package, harness, timeout=1800, target_slot='main
     try:
         p = subprocess.run(cmd, cwd=scratch.repo, env=env, capture_output=True, text=True, timeout=timeout)
     except subprocess.TimeoutExpired:
-        subprocess.run(['pkill', '-x', 'cbmc'])
         return None
     out = p.stdout
     blocks = re.findall(r'```\n(.*?)```', out, re.S)
